@@ -289,6 +289,7 @@ func (dlv *Delivery) Normalize(normalizers tax.Normalizers) {
 	tax.Normalize(normalizers, dlv.Supplier)
 	tax.Normalize(normalizers, dlv.Customer)
 	applyCustomerRates(dlv)
+	clearOwnTaxCountry(dlv)
 	tax.Normalize(normalizers, dlv.Despatcher)
 	tax.Normalize(normalizers, dlv.Receiver)
 	tax.Normalize(normalizers, dlv.Preceding)
